@@ -110,7 +110,30 @@ def all_of_merge_rule(cx, rep, rid):
                         if not merges and builds_all_of(body, depth + 1):
                             return True
             return False
-        rep.ob(rid, "all_of/conflict-keeps-intersection", len(ext) >= 1 and len(early) >= 1 and any(builds_all_of(r) for r in early),
+        direct = any(builds_all_of(r) for r in early)
+        # the same decision split over a helper: the collision test leaves the merging code early (`return None`,
+        # `break`) without building the merged object, and the caller builds the AllOf for that outcome
+        def leaves_without_merge():
+            lets = {}
+            for n in nodes:
+                if n["k"] == "LetStmt" and n.get("init") is not None and n["pat"].get("k") == "P.Binding":
+                    lets[n["pat"]["lid"]] = n["init"]
+            for n in nodes:
+                if n["k"] != "If":
+                    continue
+                cond_nodes = list(walk(n["cond"]))
+                for x in list(cond_nodes):
+                    if x["k"] == "Path" and x.get("lid") in lets:
+                        cond_nodes += list(walk(lets[x["lid"]]))
+                if not any(c is x for c in cmps for x in cond_nodes):
+                    continue
+                for r in walk(n["then"]):
+                    if r["k"] in ("Ret", "Break") and not any(
+                            y["k"] in ("Call", "Path") and re.search(r"Runtype::object$|RuntypeKind::Object$", y.get("def") or y.get("callee") or "") for y in walk(r)):
+                        return True
+            return False
+        anywhere = any(x["k"] in ("Call", "Path") and "RuntypeKind::AllOf" in (x.get("def") or x.get("callee") or "") for x in nodes)
+        rep.ob(rid, "all_of/conflict-keeps-intersection", len(ext) >= 1 and (direct or (anywhere and leaves_without_merge())),
                "on a collision all_of must keep the members as an (order-free) AllOf set instead of merging", ao[0].loc())
 
 
@@ -148,8 +171,9 @@ def symmetric_merge_rule(cx, rep, rid):
 def sibling_tables_rule(cx, rep, rid):
     """The discriminated-union validator gets two tables keyed by tag: the one validate()/parse/hash256 dispatch on and
     the one schema() prints.  Both must select the variants of a tag in the same way; they are built either by one
-    function called twice or by two pieces of code that must stay alpha-equivalent.  Decided: every `ObjectLit`
-    construction whose properties come from mapping the discriminator values has the same structural shape."""
+    function called twice or by two pieces of code whose selection predicates must stay alpha-equivalent.  Decided:
+    every `ObjectLit` construction whose properties come from mapping the discriminator values selects with predicates
+    of the same structural shape."""
     from facts import hir_shape
     F = cx.rs
     n = 0
@@ -169,7 +193,13 @@ def sibling_tables_rule(cx, rep, rid):
                 props = [fl["e"] for fl in x["fields"] if fl["name"] == "props"]
                 if props and any(y["k"] == "Closure" for y in walk(props[0])):
                     tables.append(props[0])
-        shapes = {hir_shape(t) for t in tables}
+        # compared: the SELECTION of the variants of a tag (the predicates given to filter-like adaptors).  What is then
+        # built from the selected variants may differ - the schema table narrows the tag of a variant that carries
+        # several literals to its key (fix efd9347), the dispatch table must not.
+        SELECT = ("filter", "filter_map", "find", "find_map", "position", "take_while", "skip_while", "retain")
+        def selection(t):
+            return tuple(hir_shape(a) for x in walk(t) if x["k"] == "MethodCall" and x.get("method") in SELECT for a in x["args"])
+        shapes = {selection(t) for t in tables}
         if not tables:
             rep.ob(rid, "%s/tables-agree" % f.id.rsplit("::", 1)[-1], True, sample={"fn": f.id, "tables": "built elsewhere (shared builder)"})
             continue
@@ -316,6 +346,9 @@ def run(cx, rep):
     all_of_merge_rule(cx, rep, "C08.5")
     rep.rule("C08.7", "the dispatch table and the schema table of a discriminated union are built alike")
     sibling_tables_rule(cx, rep, "C08.7")
+    rep.rule("C08.8", "renaming, introducing or inlining a generic wrapper does not change what a type parameter means (scope stacks are searched innermost-first; = C01.8)")
+    from rules.c01 import scope_stack_rule
+    scope_stack_rule(cx, rep, "C08.8")
     rep.rule("C08.6", "binary merges of set-ordered members treat both operands alike")
     symmetric_merge_rule(cx, rep, "C08.6")
     # ---------------------------------------------------------------- C08.4
